@@ -376,3 +376,89 @@ F("F-R2-kwargs-stripped-after-validation", ["C04"], (B_, "        self.validate_
 F("K-R5-dryrun-returns-cache-before-asking", ["C15"], (C_, "            profrs = None\n            dtprofup = None\n\n        response = self._request_profile(", "            profrs = None\n            dtprofup = None\n\n        if profrs is not None and timeout == 0:\n            return profrs\n\n        response = self._request_profile("))
 F("P-R13-close-in-finally-with-return", ["C08"], (P_, "        return super().close()\n", "        try:\n            root = super().close()\n        finally:\n            return self._last if hasattr(self, \"_last\") else None\n"))
 F("G-R14-write-skipped-when-section-empty", ["C18"], (G_, "    mk_server_cfg(args)\n    logger.info(f\"Writing user configs to {USERCONFIGPATH}\")\n", "    cfg = mk_server_cfg(args)\n    if not len(cfg):\n        return\n    logger.info(f\"Writing user configs to {USERCONFIGPATH}\")\n"))
+
+
+# round 14 rules: hand variants (benign side first)
+B("G-R7b-predicate-merged-correctly", ["C18"], (G_, """        if value in NULL_ARGS:
+            return False
+        # Don't include CLIENTUID in the server section if it's sourced
+        # from USERCFG.default_section
+        if opt == "clientuid" and value == defaults["clientuid"]:
+            return False
+        # Don't include configs that are the same as defaults
+        elif value == lib_cfg.get(opt, DEFAULTS[opt]):
+            return False
+
+        return True
+""", """        return (
+            value not in NULL_ARGS
+            and not (opt == "clientuid" and value == defaults["clientuid"])
+            and value != lib_cfg.get(opt, DEFAULTS[opt])
+        )
+"""))
+F("G-R7b-predicate-merged-with-or-slip", ["C18"], (G_, """        if value in NULL_ARGS:
+            return False
+        # Don't include CLIENTUID in the server section if it's sourced
+        # from USERCFG.default_section
+        if opt == "clientuid" and value == defaults["clientuid"]:
+            return False
+        # Don't include configs that are the same as defaults
+        elif value == lib_cfg.get(opt, DEFAULTS[opt]):
+            return False
+
+        return True
+""", """        return (
+            value not in NULL_ARGS
+            and (opt != "clientuid" or value == defaults["clientuid"])
+            and value != lib_cfg.get(opt, DEFAULTS[opt])
+        )
+"""))
+B("N-R15-one-url-by-explicit-raise", ["C14", "C06"], (C_, """            assert len(urls) == 1
+            url = urls.pop()
+
+        logger.info("Creating account info request")""", """            if len(urls) != 1:
+                raise ValueError("profile advertises several service URLs")
+            url = urls.pop()
+
+        logger.info("Creating account info request")"""))
+F("N-R15-only-the-empty-set-refused", ["C14"], (C_, """            assert len(urls) == 1
+            url = urls.pop()
+
+        logger.info("Creating account info request")""", """            if not urls:
+                raise ValueError("profile advertises no service URL")
+            url = urls.pop()
+
+        logger.info("Creating account info request")"""))
+B("B-R16-xml-pattern-from-a-helper-optional-space", ["C05", "C12"], (H_, """XML_REGEX = re.compile(
+    r\"\"\"(<\\?xml\\s+
+        (version=(?P<versionquote>[\\"'])(?P<xmlversion>[\\d.]+)(?P=versionquote))?\\s*
+        (encoding=(?P<encodingquote>[\\"'])(?P<encoding>[\\w-]+)(?P=encodingquote))?\\s*
+        (standalone=(?P<standalonequote>[\\"'])(?P<standalone>[\\w]+)(?P=standalonequote))?\\s*
+        \\?>)\\s*\"\"\",
+    re.VERBOSE,
+)
+""", """def _xml_attr(name, group, value):
+    return rf\"\"\"({name}=(?P<{name}quote>[\\"'])(?P<{group}>{value})(?P={name}quote))?\\s*\"\"\"
+
+
+XML_REGEX = re.compile(
+    r\"(<\\?xml\\s+\"
+    + _xml_attr("version", "xmlversion", r"[\\d.]+")
+    + _xml_attr("encoding", "encoding", r"[\\w-]+")
+    + _xml_attr("standalone", "standalone", r"[\\w]+")
+    + r\"\\?>)\\s*\",
+    re.VERBOSE,
+)
+"""))
+
+B("P-R15-end-by-match-with-guard", ["C08", "C02", "C07", "C15"], (P_, """        if not self._open or self._open[-1] != tag:
+            expected = f"</{self._open[-1]}>" if self._open else "no end tag"
+            raise ParseError(f"Unexpected </{tag}>; expected {expected}")
+        self._open.pop()
+""", """        match self._open:
+            case []:
+                raise ParseError(f"Unexpected </{tag}>; expected no end tag")
+            case [*_, innermost] if innermost != tag:
+                raise ParseError(f"Unexpected </{tag}>; expected </{innermost}>")
+        self._open.pop()
+"""))
